@@ -3,6 +3,7 @@
 package verifmc
 
 import (
+	"encoding/json"
 	"fmt"
 	"os"
 	"os/exec"
@@ -39,4 +40,122 @@ func tail(s string, n int) string {
 		return s
 	}
 	return s[len(s)-n:]
+}
+
+// ---- first calls of a fresh process ----
+
+// Call is one API call of a first-call alphabet; Run returns what the caller can observe, as text.
+type Call struct {
+	Name string
+	Run  func() string
+}
+
+// FirstCallsChild is the body of the child's Test function: it makes the calls named in the environment
+// variable, in order, and hands the answers to the parent.
+func FirstCallsChild(calls []Call, envVar string) bool {
+	spec := os.Getenv(envVar)
+	if spec == "" {
+		return false
+	}
+	var out []string
+	for _, s := range strings.Split(spec, ",") {
+		i := 0
+		fmt.Sscan(s, &i)
+		var r string
+		if p := Catch(func() { r = calls[i].Run() }); p != "" {
+			r = "panic: " + strings.SplitN(p, "\n", 2)[0]
+		}
+		out = append(out, r)
+	}
+	FreshPrint(strings.Join(out, "\x01"))
+	return true
+}
+
+func checkFirstCalls(calls []Call, warm []string, seq []int, childTest, envVar string) string {
+	var spec []string
+	for _, i := range seq {
+		spec = append(spec, fmt.Sprint(i))
+	}
+	got, err := FreshExec(childTest, envVar+"="+strings.Join(spec, ","))
+	if err != nil {
+		return err.Error()
+	}
+	parts := strings.Split(got, "\x01")
+	if len(parts) != len(seq) {
+		return fmt.Sprintf("fresh process answered %d of %d calls", len(parts), len(seq))
+	}
+	for k, i := range seq {
+		if parts[k] != warm[i] {
+			var before []string
+			for _, j := range seq[:k] {
+				before = append(before, calls[j].Name)
+			}
+			return fmt.Sprintf("%s = %q as call %d of a fresh process (after %v), but %q in a process that has used the package before", calls[i].Name, parts[k], k+1, before, warm[i])
+		}
+	}
+	return ""
+}
+
+// FirstCalls registers and runs the family "first-calls-of-a-fresh-process": every call as the FIRST call of a
+// new process (the test binary re-executed with childTest), alone and followed by every other call (all ordered
+// pairs); each answer must equal the answer of the same call in this long-running process (computed after the
+// process has used the package in every other family, and checked there against the property's oracle). What it
+// decides: that no table, cache or variable built on first use — by whichever entry point comes first — changes a
+// result. The space is finite and fully enumerated: len(calls) + len(calls)·(len(calls)−1) processes.
+func FirstCalls(c *Check, calls []Call, childTest, envVar string) {
+	if c.Sweep() {
+		return
+	}
+	warm := make([]string, len(calls))
+	var names []string
+	for i, cl := range calls {
+		warm[i] = cl.Run()
+		names = append(names, cl.Name)
+	}
+	replay := func(raw json.RawMessage) string {
+		var seq []int
+		if err := json.Unmarshal(raw, &seq); err != nil {
+			return err.Error()
+		}
+		return checkFirstCalls(calls, warm, seq, childTest, envVar)
+	}
+	f := c.Family("first-calls-of-a-fresh-process", fmt.Sprintf("every call of %q as the FIRST call of a new process (the test binary re-executed), alone and followed by every other call (all ordered pairs): each answer equals the answer of the same call in the long-running process, whose answers the other families check against the property's oracle — so tables, caches or variables built on first use, by whichever entry point comes first, cannot change a result; non-trivial = pairs", names), replay)
+	if c.Replaying() {
+		return
+	}
+	var seqs [][]int
+	for i := range calls {
+		seqs = append(seqs, []int{i})
+	}
+	for i := range calls {
+		for j := range calls {
+			if i != j {
+				seqs = append(seqs, []int{i, j})
+			}
+		}
+	}
+	f.Bounds["calls"] = len(calls)
+	f.Bounds["fresh_processes"] = len(seqs)
+	done := ParRange(uint64(len(seqs)), 1, c.TimeUp, func(w int, lo, hi uint64) {
+		l := f.Local()
+		for k := lo; k < hi; k++ {
+			msg := checkFirstCalls(calls, warm, seqs[k], childTest, envVar)
+			l.Evals++
+			if len(seqs[k]) > 1 {
+				l.Nontrivial++
+			}
+			if msg != "" {
+				l.Outcome("differs")
+				c.Fail(f, "fresh-process", seqs[k], msg)
+			} else {
+				l.Outcome("same as warm")
+			}
+		}
+		l.Flush()
+	})
+	if done < uint64(len(seqs)) {
+		f.Capped(fmt.Sprintf("time cap: %d of %d processes", done, len(seqs)))
+	}
+	f.Sample([]int{0, 1})
+	f.Done()
 }
